@@ -132,8 +132,32 @@ func (g *Graph) StoreTokens() string {
 }
 
 // LinkSystem over the graph; loads are appended to *loads; links in skip answer SkipMe.
+// NodeReifyHide makes every link system of a graph carry a NodeReifier that shows loaded blocks differently from their
+// stored form (HidingReifier); set by a check around the operations of one case.
+var NodeReifyHide bool
+
+// HidingReifier presents a loaded map without its first entry and a loaded list without its first element.
+func HidingReifier(_ linking.LinkContext, n datamodel.Node, _ *linking.LinkSystem) (datamodel.Node, error) {
+	v, err := ReadNode(n)
+	if err != nil {
+		return n, nil
+	}
+	switch {
+	case v.K == '{' && len(v.M) > 0:
+		v.M = v.M[1:]
+	case v.K == '[' && len(v.L) > 0:
+		v.L = v.L[1:]
+	default:
+		return n, nil
+	}
+	return BuildBasic(v, nil)
+}
+
 func (g *Graph) LinkSystem(loads *[]string, skip map[string]bool) linking.LinkSystem {
 	lsys := cidlink.DefaultLinkSystem()
+	if NodeReifyHide {
+		lsys.NodeReifier = HidingReifier
+	}
 	lsys.StorageReadOpener = func(_ linking.LinkContext, l datamodel.Link) (io.Reader, error) {
 		c := string(l.(cidlink.Link).Cid.Bytes())
 		if loads != nil {
@@ -317,6 +341,9 @@ type WalkCfg struct {
 	Start                  []string // segment strings
 	Skip                   map[string]bool
 	Reify                  bool // register an identity reifier under the name the selector generator uses ("someadl")
+	// ReifyKind registers another reifier under that name instead: "collapse" (a map or list becomes a string), "hide"
+	// (HidingReifier), "fail" (an error), "nil" (no node, no error), "scalar-to-list" (a scalar becomes a one-element list)
+	ReifyKind string
 }
 
 func PathArg(segs []string) string {
@@ -424,6 +451,32 @@ func RunWalk(g *Graph, spec Val, w WalkCfg, matching bool) WalkObs {
 	lsys := g.LinkSystem(&loads, w.Skip)
 	if w.Reify || ForceReify {
 		lsys.KnownReifiers = map[string]linking.NodeReifier{"someadl": func(_ linking.LinkContext, n datamodel.Node, _ *linking.LinkSystem) (datamodel.Node, error) {
+			return n, nil
+		}}
+	}
+	if w.ReifyKind != "" {
+		kind := w.ReifyKind
+		lsys.KnownReifiers = map[string]linking.NodeReifier{"someadl": func(lc linking.LinkContext, n datamodel.Node, ls *linking.LinkSystem) (datamodel.Node, error) {
+			switch kind {
+			case "collapse":
+				if n.Kind() == datamodel.Kind_Map || n.Kind() == datamodel.Kind_List {
+					return basicnode.NewString("collapsed"), nil
+				}
+			case "hide":
+				return HidingReifier(lc, n, ls)
+			case "fail":
+				return nil, fmt.Errorf("reifier refuses")
+			case "nil":
+				return nil, nil
+			case "scalar-to-list":
+				if n.Kind() != datamodel.Kind_Map && n.Kind() != datamodel.Kind_List {
+					nb := basicnode.Prototype.Any.NewBuilder()
+					la, _ := nb.BeginList(1)
+					la.AssembleValue().AssignNode(n)
+					la.Finish()
+					return nb.Build(), nil
+				}
+			}
 			return n, nil
 		}}
 	}
